@@ -9,6 +9,9 @@ use crate::Args;
 mod tc;
 use tc::{parse_snap, result_of, run_tab_with, GSnap};
 
+#[path = "c20_sys.rs"]
+pub mod sys;
+
 const RULE: &str = "a case is one op history on a fresh real session table (capacity 16 sessions x 5 exchanges): handshake attempts that reserve a slot (ReservedSession::reserve_now) and are abandoned before / after update, completed, or refused because the table is full; unsecured sessions added as for a first handshake message; exchanges initiated, opened by received messages, accepted or never accepted, dropped with pending ack / retransmission; sessions expired; eviction queries and evictions after virtual time steps (and at the same instant); then a quiescence phase - every handle dropped, accept deadline passed and accept sweep run for accept-pending exchanges, closer run until it finds nothing - and a final leak check op. Every op line carries the implementation's result and the table snapshot. Non-trivial = at least two distinct output lines; #stat lines give table-full refusals, evictions, closer actions; distinct = by op list";
 
 fn gen_case(r: &mut Rng, out: &mut Out, len: usize) {
@@ -90,7 +93,8 @@ fn gen_case(r: &mut Rng, out: &mut Out, len: usize) {
                     }
                 }
                 28..=32 => match rh.iter().find(|x| x.1).copied() {
-                    Some((h, _)) => format!("cmp r{}", h),
+                    // completed and dropped at once, or completed while the handshake keeps waiting
+                    Some((h, _)) => if r.chance(1, 2) { format!("cmp r{}", h) } else { format!("cpl r{}", h) },
                     None => "t 3".into(),
                 },
                 33..=40 => {
@@ -164,16 +168,168 @@ fn gen_case(r: &mut Rng, out: &mut Out, len: usize) {
     });
 }
 
+
+const SYS_RULE: &str = "sys cases (system level): a REAL device Matter (transport, 1-4 SecureChannel handlers that the executor drops at scripted instants after they accepted, the busy responder) and real controller nodes on the simulated network under virtual time with 0-20 ms latency; the device's 16-slot table is pre-filled with 0..16 established sessions in use (each carries a live exchange) and idle ones, so that 16..0 slots remain (from below the smallest configuration, 3, upwards); 1-10 initiators run the real PaseInitiator / CaseInitiator concurrently or staggered: complete, wrong passcode, stop after message k (every later datagram lost), k-th message damaged in flight (bit flip / truncation / random payload), initiator task cancelled after n ms, follow-up secure traffic nobody claims, raw junk datagrams, waits on the device's own mDNS resolve / browse rendezvous that time out or are cancelled; 'race' ops hold the initiator's acknowledgement of the final status report and its first secure message and release both in the same instant; then 130-160 s of virtual time until every time-out has fired, the REAL tables are read, and fresh legitimate PASE and CASE handshakes are attempted (up to 3 tries 1 s apart, Busy = retry); non-trivial = the case contains at least one faulty initiator, pre-filled session or race";
+
+fn gen_junk(r: &mut Rng) -> String {
+    let mut b: Vec<u8> = Vec::new();
+    match r.below(4) {
+        0 => {
+            let n = r.range(1, 40) as usize;
+            b = r.bytes(n);
+        }
+        1 => {
+            // unsecured, source node id, an opcode that may open an exchange, garbage payload
+            b.push(0x04);
+            b.extend_from_slice(&[0, 0, 0]);
+            b.extend_from_slice(&(r.below(1 << 32) as u32).to_le_bytes());
+            b.extend_from_slice(&r.next().to_le_bytes());
+            b.push(*r.pick(&[0x05u8, 0x01, 0x04]));
+            b.push(*r.pick(&[0x20u8, 0x30, 0x22, 0x32, 0x40, 0x10, 0x99]));
+            b.extend_from_slice(&(r.below(65536) as u16).to_le_bytes());
+            b.extend_from_slice(&[0, 0]);
+            let n = r.below(30) as usize;
+            b.extend_from_slice(&r.bytes(n));
+        }
+        2 => {
+            // claims a secure session the device does not have
+            b.push(0x00);
+            b.extend_from_slice(&(r.range(1, 65535) as u16).to_le_bytes());
+            b.push(0);
+            b.extend_from_slice(&(r.below(1 << 32) as u32).to_le_bytes());
+            let n = r.range(16, 40) as usize;
+            b.extend_from_slice(&r.bytes(n));
+        }
+        _ => {
+            b.push(0x04);
+            b.extend_from_slice(&[0, 0, 0]);
+            b.extend_from_slice(&(r.below(1 << 32) as u32).to_le_bytes());
+            let n = r.below(9) as usize;
+            b.extend_from_slice(&r.bytes(n));
+        }
+    }
+    crate::proto::hex(&b)
+}
+
+/// one system-level case: (kind, ops, non-trivial)
+fn gen_sys(id: u64, r: &mut Rng) -> (String, Vec<String>, bool) {
+    let lat = *r.pick(&[0u64, 2, 5, 5, 20]);
+    let handlers = r.range(1, 4);
+    let hc: Vec<String> = if r.chance(1, 2) { vec![] } else {
+        (0..r.range(1, 4)).map(|_| r.pick(&[0u64, 0, 3, 7, 12, 18, 25, 33, 60, 700, 5000, 40000]).to_string()).collect()
+    };
+    let mdnsr = r.chance(1, 3);
+    let kind = format!("sys H={} hc={} busy={} lat={} mdnsr={}", handlers, if hc.is_empty() { "-".to_string() } else { hc.join(",") }, if r.chance(5, 6) { 1 } else { 0 }, lat, mdnsr as u8);
+    let mut ops: Vec<String> = Vec::new();
+    let mut nt = !hc.is_empty();
+    match id % 8 {
+        0 => {
+            // the race: the first secure message arrives together with the acknowledgement of the last handshake message
+            ops.push(format!("race {} at=0 c=1", if r.chance(1, 2) { "pase" } else { "case" }));
+            if r.chance(1, 2) {
+                ops.push(format!("race {} at={} c=2", if r.chance(1, 2) { "pase" } else { "case" }, r.range(200, 3000)));
+            }
+            ops.push("quiesce 130000".into());
+            ops.push("probe case".into());
+            return (kind, ops, true);
+        }
+        1 => {
+            // boundaries of the table: exactly 16, 15, 14 slots in use
+            let p = if r.chance(1, 25) { 15 } else { *r.pick(&[16u64, 16, 14, 14, 14, 13, 12]) };
+            ops.push(format!("pin {}", p));
+            if p < 16 && r.chance(1, 2) {
+                ops.push(format!("idl {}", 16 - p));
+            }
+            ops.push("quiesce 2000".into());
+            ops.push(format!("probe {}", if r.chance(1, 2) { "pase" } else { "case" }));
+            ops.push(format!("probe {}", if r.chance(1, 2) { "pase" } else { "case" }));
+            return (kind, ops, true);
+        }
+        _ => {}
+    }
+    // pre-filled table: free capacity from 2 (below the smallest configuration) upwards
+    let pinned = *r.pick(&[0u64, 0, 4, 8, 10, 11, 12, 13, 13, 14]);
+    if pinned > 0 {
+        ops.push(format!("pin {}", pinned));
+        nt = true;
+    }
+    if r.chance(1, 3) {
+        let k = r.range(1, (16 - pinned).min(6));
+        ops.push(format!("idl {}", k));
+    }
+    let n_ini = r.range(1, 10);
+    let burst = r.chance(1, 2);
+    let mut t = 0u64;
+    let mut pase_faults = 0;
+    for _ in 0..n_ini {
+        if !burst {
+            t += *r.pick(&[0u64, 1, 10, 50, 400, 1500, 6000]);
+        } else if r.chance(1, 4) {
+            t += r.range(0, 30);
+        }
+        let c = r.range(1, 2);
+        if r.chance(1, 10) {
+            ops.push(format!("junk at={} c={} hex={}", t, c, gen_junk(r)));
+            nt = true;
+            continue;
+        }
+        if r.chance(1, 12) {
+            ops.push(format!("rdv {} at={}{}", if r.chance(1, 2) { "resolve" } else { "browse" }, t, if r.chance(2, 3) { format!(" cancel={}", r.range(0, 4000)) } else { String::new() }));
+            nt = true;
+            continue;
+        }
+        let pase = r.chance(1, 2);
+        let n_msgs = if pase { 3 } else { 2 };
+        let mut op = format!("ini {} at={} c={}", if pase { "pase" } else { "case" }, t, c);
+        let fault = r.below(10);
+        let mut faulty = true;
+        match fault {
+            0 | 1 => op.push_str(&format!(" stop={}", r.range(1, n_msgs))),
+            2 | 3 => op.push_str(&format!(" garble={}:{}:{}", r.range(1, n_msgs), r.pick(&["f", "f", "t", "r"]), r.below(4096))),
+            4 | 5 => op.push_str(&format!(" cancel={}", if lat == 0 { r.range(0, 3) } else { r.range(0, lat * 8 + 3) })),
+            6 if pase => op.push_str(" pw=bad"),
+            7 => {
+                op.push_str(&format!(" sec={}", r.range(1, 3)));
+                faulty = false;
+            }
+            _ => faulty = false,
+        }
+        if faulty && pase {
+            pase_faults += 1;
+            if pase_faults > 12 {
+                continue;
+            }
+        }
+        nt |= faulty;
+        ops.push(op);
+    }
+    ops.push(format!("quiesce {}", r.pick(&[130_000u64, 140_000, 160_000])));
+    ops.push(format!("probe {}", if r.chance(1, 2) { "pase" } else { "case" }));
+    ops.push(format!("probe {}", if r.chance(1, 2) { "pase" } else { "case" }));
+    (kind, ops, nt)
+}
+
 pub fn gen(a: &Args) -> String {
     let mut r = Rng::new(a.seed);
     let mut out = Out::default();
-    out.buf.push_str(&format!("#rule {}\n", RULE));
-    let n_cases = if a.thorough { 40000 } else { 6000 };
+    out.buf.push_str(&format!("#rule {} || {}\n", RULE, SYS_RULE));
+    let n_cases = if a.thorough { 40000 } else { 4500 };
     for id in 0..n_cases {
         let mut cr = r.fork();
         let len = if a.thorough { cr.range(10, 200) } else { cr.range(10, 80) } as usize;
         out.case(id, "tab");
         gen_case(&mut cr, &mut out, len);
+    }
+    // system level: a real device, real initiators, virtual time
+    let n_sys = if a.thorough { 6000 } else { 500 };
+    for id in 0..n_sys {
+        let mut cr = r.fork();
+        let (kind, ops, nt) = gen_sys(id, &mut cr);
+        out.case(n_cases + id, &kind);
+        sys::run_sys(&mut out, &kind, &ops);
+        if nt {
+            out.buf.push_str("#nt\n");
+        }
     }
     out.finish()
 }
@@ -182,7 +338,12 @@ pub fn replay(a: &Args) -> String {
     let text = std::fs::read_to_string(a.input.as_ref().expect("--in")).expect("read input");
     let mut out = Out::default();
     for c in parse_cases(&text) {
-        tc::run_case(&mut out, &c);
+        if c.kind.starts_with("sys") {
+            out.case(c.id, &c.kind);
+            sys::run_sys(&mut out, &c.kind, &c.ops);
+        } else {
+            tc::run_case(&mut out, &c);
+        }
     }
     out.finish()
 }
